@@ -29,7 +29,7 @@
    observation, 3 NaN after the transform, 4 arity (IndexError dd[1] / ValueError arity != 2).
    No proofs here. *)
 From Coq Require Import ZArith List Bool QArith Qcanon.
-From Batchie Require Import Lib.Sexp Lib.Num Generated.Consts Model.Encode.
+From Batchie Require Import Lib.Sexp Lib.Num Generated.Consts Generated.ConstsClip Model.Encode.
 Import ListNotations.
 Open Scope Z_scope.
 
